@@ -552,6 +552,13 @@ func reifyMergeValue(
 		if err := tryValidate(old); err != nil {
 			return reflect.Value{}, raiseValidation(val.Context(), val.meta(), "", err)
 		}
+		// ... and so are the validators of the field's tag (they were run
+		// for a nil pointer field only, which takes another path)
+		if old.CanInterface() {
+			if err := runValidators(old.Interface(), opts.validators); err != nil {
+				return reflect.Value{}, raiseValidation(val.Context(), val.meta(), "", err)
+			}
+		}
 		// (a pointer held by an interface stays a pointer)
 		return pointerize(t, old.Type(), old), nil
 	}
